@@ -74,6 +74,9 @@ def _prog(combo, ending, cancels, outer, disp=0):
 def programs(tier: str):
     yield {"detached": True, "pauses": 1}
     yield {"detached": True, "pauses": 0}
+    for how in ("aclose", "break"):
+        for place in ("in-scope", "outside"):
+            yield {"stream": True, "close": how, "place": place}
     for after in ("scope-returned", "scope-raised", "scope-cancelled", "scope-cancelled-in-exit"):
         yield {"detached": True, "pauses": 1, "after": after}
     kmax = BOUNDS[tier]["max_spawns"]
@@ -161,7 +164,70 @@ def _detached(program, ch: Chooser) -> Result:
         w.close()
 
 
+def _stream(program, ch: Chooser) -> Result:
+    """a context stream has its own scope: tasks its source spawns there are cancelled when the
+    stream is closed early (they never outlive the stream's scope)"""
+    import gc
+
+    w = World(ch)
+    viols: list[dict] = []
+    try:
+        spawned: list = []
+        ends: list = []
+
+        async def blocked():
+            try:
+                await w.loop.create_future()
+            except asyncio.CancelledError:
+                ends.append("cancelled")
+                raise
+
+        async def source():
+            for i in range(3):
+                spawned.append(ctx.spawn(blocked))
+                yield i
+
+        st: dict = {}
+
+        async def consume():
+            stream = ctx.stream(source)
+            it = stream.__aiter__()
+            await it.__anext__()
+            if program["close"] == "aclose":
+                await it.aclose()
+            del it, stream
+            st["after_close"] = [t.done() for t in spawned]
+
+        async def main():
+            if program["place"] == "in-scope":
+                async with ctx.scope("outer"):
+                    await consume()
+            else:
+                await consume()
+
+        t = w.task(main(), name="driver")
+        try:
+            w.run()
+        except Livelock:
+            pass
+        for _ in range(3):
+            gc.collect()
+            w.settle()
+        alive = [i for i, tk in enumerate(spawned) if not tk.done()]
+        if not t.done():
+            viols.append(viol("termination", "stream-close-hangs", "driver finishes", "pending"))
+        if program["close"] == "aclose" and st.get("after_close") and not all(st["after_close"]):
+            viols.append(viol("all-done-at-exit", "stream-scope/task-outlives-aclose", "all done when aclose() returns", st["after_close"]))
+        if alive:
+            viols.append(viol("all-done-at-exit", f"stream-scope/task-outlives-{program['close']}", "tasks of the stream's scope are cancelled", f"{len(alive)} still running"))
+        return Result(f"stream/{program['close']}/{program['place']}", True, viols, {"ends": ends, "after_close": st.get("after_close")})
+    finally:
+        w.close()
+
+
 def execute(program, ch: Chooser) -> Result:  # noqa: C901, PLR0912
+    if program.get("stream"):
+        return _stream(program, ch)
     if program.get("detached"):
         return _detached(program, ch)
     r = Run(program, ch, cancels=program["cancels"])
